@@ -62,3 +62,22 @@ func init() {
 		return u
 	})
 }
+
+// cpathSym resolves a path whose bytes are (partly) symbolic: every symbolic
+// byte is case-split over its feasible values (bounded by max_concretize), so
+// the file-system model only ever sees concrete paths while the code under
+// test has classified the bytes with its own comparisons before.
+func (m *Machine) cpathSym(s *SymStr, op string) string {
+	bs := make([]byte, len(s.b))
+	for i, x := range s.b {
+		switch x := x.(type) {
+		case uint64:
+			bs[i] = byte(x)
+		case *Term:
+			bs[i] = byte(m.concretize(x, "path byte ("+op+")"))
+		default:
+			m.unsupported("file-system %s with a path byte of type %T", op, x)
+		}
+	}
+	return string(bs)
+}
